@@ -107,7 +107,7 @@ def section(chk: Check, max_assets: int, depth: int):
             chk.nontrivial(("assetrepo", e["_s"], common.skey(e["act"])))
     for bads in results:
         for b in bads:
-            chk.violation("B1 asset repo: observation differs from AssetRepo specification",
+            chk.divergence("AssetRepo", "B1 asset repo: observation differs from AssetRepo specification",
                           {"kind": "b1-assetrepo", "last": b["history"][-1]["n"]}, b)
     pick = [e for e in g.edges if e["act"]["n"] == "Request" and not e["obs"]["o"]["served"] and e["act"]["i"] > 0 and e["act"]["cap"] and e["act"]["good"]]
     if pick:
